@@ -106,7 +106,16 @@ impl KNumber {
                 if b < 0 {
                     F64((a as f64).powf(b as f64))
                 } else {
-                    I64(a.wrapping_pow(b as u32))
+                    // The exponent can be larger than u32::MAX, so wrapping_pow can't be used here
+                    let (mut base, mut exponent, mut result) = (a, b as u64, 1_i64);
+                    while exponent > 0 {
+                        if exponent & 1 == 1 {
+                            result = result.wrapping_mul(base);
+                        }
+                        base = base.wrapping_mul(base);
+                        exponent >>= 1;
+                    }
+                    I64(result)
                 }
             }
         }
